@@ -830,6 +830,9 @@ class Enforcer:
             for rule in rules:
                 if self._undefined_check(rule):
                     return True
+        # A NotCheck wraps a single rule.
+        if isinstance(check, NotCheck):
+            return self._undefined_check(check.rule)
         return False
 
     def _cycle_check(self, check, seen=None):
@@ -866,6 +869,9 @@ class Enforcer:
                 # different branchs are seperated.
                 if self._cycle_check(rule, seen.copy()):
                     return True
+        # A NotCheck wraps a single rule.
+        if isinstance(check, NotCheck):
+            return self._cycle_check(check.rule, seen)
         return False
 
     @staticmethod
